@@ -186,3 +186,14 @@ Print Assumptions C05_chainm_tagno_refuted.
 Theorem C05_chainm_mode0_is_chain : forall tags c w, chainm_step KStep 0 1 tags c w = chain_step tags c w.
 Proof. exact chainm_mode0_is_chain. Qed.
 Print Assumptions C05_chainm_mode0_is_chain.
+
+(* ber_decode_primitive for a member that tags a reference to a primitive type in place (ber_check_tags without a
+   restart context, tag_mode -1 / 0 / +1, any number of own tags): nothing consumed until the whole TLV chain is there *)
+Theorem C05_primm_coherent : forall mode tags, coherent (primm_step mode tags).
+Proof. exact primm_coherent. Qed.
+Print Assumptions C05_primm_coherent.
+
+Theorem C05_primm_chunk_independent : forall mode tags input chunks,
+  chunking_of input chunks -> feed0 (primm_step mode tags) None chunks = primm_step mode tags None input.
+Proof. exact primm_chunk_independent. Qed.
+Print Assumptions C05_primm_chunk_independent.
